@@ -95,7 +95,9 @@ func (s *simplifier) simplifyWord(wps []WordPart) []WordPart {
 parts:
 	for i, wp := range wps {
 		dq, _ := wp.(*DblQuoted)
-		if dq == nil || len(dq.Parts) != 1 {
+		if dq == nil || len(dq.Parts) != 1 || dq.Dollar {
+			// $"foo\bar" must not become $'foo\bar', as the latter
+			// interprets backslash escape sequences like \b.
 			break
 		}
 		lit, _ := dq.Parts[0].(*Lit)
